@@ -145,7 +145,8 @@ def tlc(scratch, module, cfg, workers="auto", extra=(), timeout=900, simulate=No
         if f.endswith(".tla") or f.endswith(".cfg"):
             shutil.copy(os.path.join(SPECS, f), wd)
     if os.path.isabs(cfg) or os.path.exists(cfg):
-        shutil.copy(cfg, wd)
+        if os.path.abspath(os.path.dirname(cfg)) != os.path.abspath(wd):
+            shutil.copy(cfg, wd)
         cfg = os.path.basename(cfg)
     meta = os.path.join(wd, "meta")
     if not jvm:
